@@ -144,7 +144,7 @@ def run(chk):
                 "CameraViewPort — substituted for each validated argument of Data3D, ForceTorque3D, CalibrationDataBlock, "
                 "CameraViewPort, SeelabCameraData, OpticalChannelData (others valid), and two or three geometry arguments wrong at once (all triples over 12 values; all pairs of Seelab positions over 6 values); ForceTorqueTrack: all triples over a "
                 "12-shape subset + non-arrays; Event: every value x both kinds; observed: accepted / exception class, and "
-                "nBytes vs encoded length of every accepted object; non-trivial = the substituted value is not the valid one")
+                "nBytes vs encoded length of every accepted object; a sample of the single-argument cases taken again after successful and after failed (cut, damaged) decodes of every block type; non-trivial = the substituted value is not the valid one")
     chk.exhaustive = True
     cases = []           # (ctor id, name, argpos, margs, thunk, mval, desc)
     for cid, name, build, valid, argnames in constructors():
@@ -197,8 +197,57 @@ def run(chk):
             ty = EventsDataType.singleEvent if single else EventsDataType.eventSequence
             cases.append((7, "Event", 0, [m], (lambda p=p, ty=ty: Event("e", p, ty)), m, "Event(values=%s, %s)" % (desc, ty.name), single))
     mres = common.run_model_sharded([(42, [c[0], c[3], c[7] if len(c) > 7 and c[7] != "multi" else 0]) for c in cases])
-    for c, m in zip(cases, mres):
+    judge_all(chk, list(zip(cases, mres)))
+    if chk.n_found():
+        return
+    # the same verdicts whatever happened before in the process: after decodes that FAILED half-way (a truncated or damaged
+    # stream of each block type) and after decodes that succeeded — a constructor has no memory
+    rng = common.rng_for(chk.seed, "C19-history")
+    single = [(c, m) for c, m in zip(cases, mres) if c[0] <= 5 and len(c) == 7]
+    rng.shuffle(single)
+    single = single[: 1500 if chk.tier == "quick" else 12000]
+    damaged = damaged_streams(rng)
+    for k in range(0, len(single), 25):
+        what = disturb(damaged, k // 25)
+        chk.count("verdicts re-taken after " + what.split(":")[0])
+        judge_all(chk, single[k:k + 25], "after %s: " % what)
+        if chk.n_found():
+            return
+
+
+def damaged_streams(rng):
+    """[(kind, format, bytes, description)]: encodings of valid blocks of every type, whole / cut short / with a count blown up"""
+    from harness import blocks
+    out = []
+    for kind in blocks.KINDS:
+        for fmt in blocks.FORMATS[kind]:
+            for _ in range(20):
+                f, v = blocks.gen(kind, rng, fmt=fmt, big=3)
+                if blocks.nontrivial(kind, v):
+                    break
+            raw = blocks.impl_write(blocks.build(kind, f, v))
+            out.append((kind, f, raw, "a successful decode of a %s block" % kind))
+            for cut in sorted({len(raw) - 1, len(raw) // 2, len(raw) - len(raw) // 3, 5}):
+                if 0 < cut < len(raw):
+                    out.append((kind, f, raw[:cut], "a failed decode of a %s block: stream cut at byte %d of %d" % (kind, cut, len(raw))))
+            out.append((kind, f, b"\xff\xff\xff\x7f" + raw[4:], "a failed decode of a %s block: first count field blown up" % kind))
+    return out
+
+
+def disturb(damaged, k):
+    from harness import blocks
+    kind, fmt, raw, what = damaged[k % len(damaged)]
+    try:
+        blocks.impl_build(kind, fmt, raw, b"")
+    except Exception:
+        pass
+    return what
+
+
+def judge_all(chk, pairs, prefix=""):
+    for c, m in pairs:
         cid, name, pos, margs, thunk, mval, desc = c[:7]
+        desc = prefix + desc
         try:
             o = thunk()
             rc = None
